@@ -9,10 +9,12 @@ import (
 	sdkmath "cosmossdk.io/math"
 	sdk "github.com/cosmos/cosmos-sdk/types"
 	authtypes "github.com/cosmos/cosmos-sdk/x/auth/types"
+	ammkeeper "github.com/elys-network/elys/x/amm/keeper"
 	ammtypes "github.com/elys-network/elys/x/amm/types"
 	aptypes "github.com/elys-network/elys/x/assetprofile/types"
 	ctypes "github.com/elys-network/elys/x/commitment/types"
 	estypes "github.com/elys-network/elys/x/estaking/types"
+	mckeeper "github.com/elys-network/elys/x/masterchef/keeper"
 	mctypes "github.com/elys-network/elys/x/masterchef/types"
 	ptypes "github.com/elys-network/elys/x/parameter/types"
 	perptypes "github.com/elys-network/elys/x/perpetual/types"
@@ -377,4 +379,143 @@ func H_R1_BondAfterCredit() {
 	paid := env.W.BalOf(alice, usdc).Sub(w0)
 	vrf.Observe("paid", paid)
 	vrf.Assert(paid.Mul(s.tot).LTE(s.credit.Mul(s.a)), "C13-R1: a bond made after a credit earns nothing from it")
+}
+
+// ---- R1 through the amm join / exit state changes (hook arguments included) ----
+
+// R1e: LP shares minted by a join after a credit earn nothing from it (the amm's real join state change: bank move,
+// share mint + commit, AfterJoinPool hook chain with the amounts the amm passes)
+//
+//vrf:cover claimed
+//vrf:bound as R1a; a join of a symbolic share amount after the credit through amm.ApplyJoinPoolStateChange
+//vrf:assert-ms 120000
+func H_R1_JoinAfterCredit() {
+	s := lpSetup()
+	env, ctx := s.env, s.env.Ctx
+	share := ammtypes.GetPoolShareDenom(1)
+	env.Aprof.SetEntry(ctx, aptypes.Entry{BaseDenom: share, Denom: share, Decimals: 18, CommitEnabled: true, WithdrawEnabled: true})
+	env.W.Supply[share] = s.tot
+	env.W.SetBal(authtypes.NewModuleAddress(ctypes.ModuleName), share, s.tot)
+	amt, shares, in := vrf.Int("credit"), vrf.Int("sharesMinted"), vrf.Int("joinUsdc")
+	vrf.Assume(amt.IsPositive())
+	vrf.Assume(shares.IsPositive())
+	vrf.Assume(in.IsPositive())
+	env.W.SetBal(mcAddr, usdc, amt)
+	env.Mc.UpdateAccPerShare(ctx, 1, usdc, amt)
+	env.W.SetBal(alice, usdc, in)
+	pool, _ := env.Amm.GetPool(ctx, 1)
+	coins := sdk.Coins{sdk.NewCoin(usdc, in)}
+	if err := pool.IncreaseLiquidity(shares, coins); err != nil {
+		return
+	}
+	if err := env.Amm.ApplyJoinPoolStateChange(ctx, pool, alice, shares, coins, sdkmath.LegacyZeroDec()); err != nil {
+		return
+	}
+	w0 := env.W.BalOf(alice, usdc)
+	if env.Mc.ClaimRewards(ctx, alice, []uint64{1}, alice) != nil {
+		return
+	}
+	vrf.Cover("claimed")
+	paid := env.W.BalOf(alice, usdc).Sub(w0)
+	vrf.Observe("paid", paid)
+	vrf.Assert(paid.Mul(s.tot).LTE(amt.Mul(s.a)), "C13-R1: shares minted by a join after a credit earn nothing from it")
+}
+
+// R1f: an exit after a credit earns at most the pro-rata share of the shares held at the credit
+//
+//vrf:cover claimed
+//vrf:bound as R1a; an exit of a symbolic share amount after the credit through amm.ApplyExitPoolStateChange
+//vrf:assert-ms 120000
+func H_R1_ExitAfterCredit() {
+	s := lpSetup()
+	env, ctx := s.env, s.env.Ctx
+	share := ammtypes.GetPoolShareDenom(1)
+	env.Aprof.SetEntry(ctx, aptypes.Entry{BaseDenom: share, Denom: share, Decimals: 18, CommitEnabled: true, WithdrawEnabled: true})
+	env.W.Supply[share] = s.tot
+	env.W.SetBal(authtypes.NewModuleAddress(ctypes.ModuleName), share, s.tot)
+	amt, x := vrf.Int("credit"), vrf.Int("sharesBurnt")
+	vrf.Assume(amt.IsPositive())
+	vrf.Assume(x.IsPositive())
+	vrf.Assume(x.LTE(s.a))
+	env.W.SetBal(mcAddr, usdc, amt)
+	env.Mc.UpdateAccPerShare(ctx, 1, usdc, amt)
+	pool, _ := env.Amm.GetPool(ctx, 1)
+	vrf.Assume(x.LT(pool.TotalShares.Amount))
+	pool.TotalShares.Amount = pool.TotalShares.Amount.Sub(x)
+	if err := env.Amm.ApplyExitPoolStateChange(ctx, pool, alice, x, sdk.Coins{}, false); err != nil {
+		return
+	}
+	w0 := env.W.BalOf(alice, usdc)
+	if env.Mc.ClaimRewards(ctx, alice, []uint64{1}, alice) != nil {
+		return
+	}
+	vrf.Cover("claimed")
+	paid := env.W.BalOf(alice, usdc).Sub(w0)
+	vrf.Observe("paid", paid)
+	vrf.Assert(paid.Mul(s.tot).LTE(amt.Mul(s.a)), "C13-R1: an exit after a credit earns at most the pro-rata share of the shares held at the credit")
+}
+
+// ---- R3: external incentives ----
+
+func sumPoolTVL(k mckeeper.Keeper, ctx sdk.Context, poolId uint64) sdkmath.LegacyDec {
+	t := vrf.Dec("poolTVL")
+	vrf.Assume(!t.IsNegative())
+	return t
+}
+
+func sumTokenPrice(k ammkeeper.Keeper, ctx sdk.Context, denom, baseCurrency string) sdkmath.LegacyDec {
+	p := vrf.Dec("tokenPrice")
+	vrf.Assume(!p.IsNegative())
+	return p
+}
+
+// R3: one end-block distribution of an external incentive in a denom not yet registered on the pool, with the pool's
+// TVL arbitrary (zero during an oracle outage): a deposit made right after it earns nothing from it, i.e. the denom
+// is registered so that the depositor is checkpointed.
+//
+//vrf:cover credited claimed
+//vrf:summary (github.com/elys-network/elys/x/masterchef/keeper.Keeper).GetPoolTVL => sumPoolTVL
+//vrf:summary (github.com/elys-network/elys/x/amm/keeper.Keeper).GetTokenPrice => sumTokenPrice
+//vrf:bound 1 pool, 1 external incentive in a new denom (symbolic amount per block, block window), pool TVL and token price havocked >= 0; 2 holders + symbolic remainder, then a deposit by a third account
+//vrf:assert-ms 120000
+func H_R3_ExternalIncentive_NewDenom() {
+	s := lpSetup()
+	env := s.env
+	h := vrf.I64("height", 2, 1<<40)
+	env.Ctx = vrf.SetBlock(env.Ctx, h, 1000)
+	ctx := env.Ctx
+	env.Param.SetParams(ctx, ptypes.DefaultParams())
+	from, to := vrf.I64("fromBlock", 0, 1<<40), vrf.I64("toBlock", 1, 1<<40)
+	per := vrf.Int("amountPerBlock")
+	vrf.Assume(per.IsPositive())
+	vrf.Assume(per.LTE(sdkmath.NewIntWithDecimal(1, 30)))
+	env.Mc.SetExternalIncentive(ctx, mctypes.ExternalIncentive{Id: 0, RewardDenom: "uinc", PoolId: 1, FromBlock: from, ToBlock: to, AmountPerBlock: per, Apr: sdkmath.LegacyZeroDec()})
+	env.W.SetBal(mcAddr, "uinc", per) // this block's instalment is funded
+	env.Mc.ProcessExternalRewardsDistribution(ctx)
+	info, found := env.Mc.GetPoolRewardInfo(ctx, 1, "uinc")
+	if !found || !info.PoolAccRewardPerShare.IsPositive() {
+		return // outside the window: nothing credited
+	}
+	vrf.Cover("credited")
+	registered := false
+	for _, d := range env.Mc.GetRewardDenoms(ctx, 1) {
+		if d == "uinc" {
+			registered = true
+		}
+	}
+	vrf.Assert(registered, "C13-R3: a denom that has been credited to a pool is one of its reward denoms (later deposits get checkpointed)")
+	// carol, who held nothing, deposits after the credit and claims
+	carol := sdk.AccAddress([]byte("carol_______________"))
+	extra := vrf.Int("lateDeposit")
+	vrf.Assume(extra.IsPositive())
+	share := ammtypes.GetPoolShareDenom(1)
+	cc := env.Comm.GetCommitments(ctx, carol)
+	cc.AddCommittedTokens(share, extra, 0)
+	env.Comm.SetCommitments(ctx, cc)
+	env.Mc.AfterDeposit(ctx, 1, carol, extra)
+	if env.Mc.ClaimRewards(ctx, carol, []uint64{1}, carol) != nil {
+		return
+	}
+	vrf.Cover("claimed")
+	vrf.Assert(env.W.BalOf(carol, "uinc").IsZero(), "C13-R3: a deposit made after an external-incentive credit earns nothing from it")
 }
